@@ -254,6 +254,35 @@ func main() {
 					}
 				}
 			}
+			// header class: the nine bytes "REDIS00vv" take EVERY other value (the version digits
+			// decide which parts of the file are read at all - a damaged digit must not switch the
+			// checksum off)
+			for p := 0; p < 9 && p < len(file)-8 && bad < 3; p++ {
+				for v := 0; v < 256; v++ {
+					nb := byte(v)
+					if nb == file[p] {
+						continue
+					}
+					mut := append([]byte{}, file...)
+					mut[p] = nb
+					sawErr, done, _, hung := parseOnly(mut)
+					res.Evals++
+					if hung {
+						w := describe()
+						w["position"], w["new_byte"] = p, nb
+						res.Violation("damaged-snapshot-parse-hangs|alter|header", fmt.Sprintf("header byte %d changed %#x→%#x: parser neither finished nor made progress", p, file[p], nb), w)
+						res.RestartWorker = true
+						return
+					}
+					if (done || !sawErr) && bad < 3 {
+						bad++
+						w := describe()
+						w["position"], w["new_byte"] = p, nb
+						res.Violation("altered-snapshot-accepted|parser|header", fmt.Sprintf("header byte %d changed %#x→%#x (%q → %q): parser delivered err=%v done-without-error=%v", p, file[p], nb, file[:9], mut[:9], sawErr, done), w)
+					}
+				}
+			}
+			res.Count("header_alterations_parsed", 9*255)
 			// footer class
 			for p := len(file) - 8; p < len(file); p++ {
 				mut := append([]byte{}, file...)
@@ -282,6 +311,10 @@ func main() {
 				} else {
 					where = r.Intn(len(file) - 8)
 					nb := alterations(file[where])[r.Intn(3)]
+					if j%10 == 1 { // a version digit of the header becomes another digit
+						where = 5 + r.Intn(4)
+						nb = byte('0' + r.Intn(10))
+					}
 					if nb == file[where] {
 						nb ^= 1
 					}
